@@ -304,7 +304,6 @@ func cmdFeat(args []string) int {
 				}
 			}
 			probes := pitProbes(hr, pits)
-			seenTag := map[string]bool{}
 			var names []string
 			for n := range probes {
 				names = append(names, n)
@@ -318,21 +317,8 @@ func cmdFeat(args []string) int {
 					continue
 				}
 				if got != want {
-					tag := ""
-					switch {
-					case !c.Moves && c.PCEV && strings.HasPrefix(n, "transactions expand=effectiveVolumes"):
-						tag = "[pcev-without-moves] "
-					case strings.HasPrefix(n, "transactions expand=effectiveVolumes") && !c.PCEV:
-						tag = "[tx-expand-effective-unchecked] "
-					}
-					if tag != "" && seenTag[tag] {
-						continue
-					}
-					seenTag[tag] = true
-					out.Violation("C35", cs, fmt.Sprintf("[pit-wrong-answer] %sunder %s the read %q is answered %q; with all features: %q (expected that answer or a missing-feature rejection)", tag, c, n, got, want))
-					if tag == "" {
-						break
-					}
+					out.Violation("C35", cs, fmt.Sprintf("[pit-wrong-answer] under %s the read %q is answered %q; with all features: %q (expected that answer or a missing-feature rejection)", c, n, got, want))
+					break
 				}
 			}
 		}
